@@ -67,7 +67,10 @@ func (dl *dialLimiter) freeFDToken() {
 	log.Debug("[limiter] freeing FD token", "waiting", len(dl.waitingOnFd), "fd_consuming", dl.fdConsuming)
 	dl.fdConsuming--
 
-	for len(dl.waitingOnFd) > 0 {
+	// Releasing the peer token of a cancelled waiter below may start another
+	// dial that takes the FD token we just freed, so re-check the limit
+	// before handing the token to the next waiter.
+	for len(dl.waitingOnFd) > 0 && dl.fdConsuming < dl.fdLimit {
 		next := dl.waitingOnFd[0]
 		dl.waitingOnFd[0] = nil // clear out memory
 		dl.waitingOnFd = dl.waitingOnFd[1:]
